@@ -1319,6 +1319,7 @@ func runC10(o *Out, rng *RNG, tier string, replay string) {
 	}
 	c10Cur = 0
 	c10GoatAppProbe(o)
+	c10PrefilledProbe(o)
 	// harness self-check: generator distribution
 	req := o.Stats["req_ok"] + o.Stats["req_err"]
 	if req > 0 && o.Stats["req_err"]*100/req > 60 {
